@@ -513,6 +513,8 @@ class BT4Emitter(B.BfeEmitter):
             t, ty, ok = self.emit(args[0], env, "usize")
             self.unify(ty, "usize", "with_capacity")
             inner = exp[1] if isinstance(exp, tuple) and exp[0] == "vec" else "int?"
+            if inner in ("digest", "bfe") or inner in INT_TYPES:
+                return f"([] : {L.lean_ty(('vec', inner))})", ("vec", inner), ok
             return "[]", ("vec", inner), ok
         if path in (["Ok"], ["Err"]) and len(args) == 1:
             inner = exp[1] if isinstance(exp, tuple) and exp[0] == "result" else None
